@@ -999,6 +999,10 @@ rrul_fill_yly(echs_instant_t *restrict tgt, size_t nti, rrulsp_t rr)
 	bool ymdp;
 	struct enum_s e;
 
+	if (UNLIKELY(srcsca != SCALE_GREGORIAN && echs_nul_instant_p(protr))) {
+		/* the proto instant lies outside of what the scale covers */
+		return 0UL;
+	}
 	if (UNLIKELY((unsigned int)rr->count < nti)) {
 		if (UNLIKELY((nti = rr->count) == 0UL)) {
 			goto fin;
@@ -1186,6 +1190,10 @@ rrul_fill_mly(echs_instant_t *restrict tgt, size_t nti, rrulsp_t rr)
 	bool ymdp;
 	struct enum_s e;
 
+	if (UNLIKELY(srcsca != SCALE_GREGORIAN && echs_nul_instant_p(protr))) {
+		/* the proto instant lies outside of what the scale covers */
+		return 0UL;
+	}
 	if (UNLIKELY((unsigned int)rr->count < nti)) {
 		if (UNLIKELY((nti = rr->count) == 0UL)) {
 			goto fin;
@@ -1395,6 +1403,10 @@ rrul_fill_wly(echs_instant_t *restrict tgt, size_t nti, rrulsp_t rr)
 	uint_fast32_t wd_incs = 0UL;
 	struct enum_s e;
 
+	if (UNLIKELY(srcsca != SCALE_GREGORIAN && echs_nul_instant_p(protr))) {
+		/* the proto instant lies outside of what the scale covers */
+		return 0UL;
+	}
 	if (UNLIKELY((unsigned int)rr->count < nti)) {
 		if (UNLIKELY((nti = rr->count) == 0UL)) {
 			goto fin;
@@ -1567,6 +1579,10 @@ rrul_fill_dly(echs_instant_t *restrict tgt, size_t nti, rrulsp_t rr)
 	unsigned int maxd;
 	struct enum_s e;
 
+	if (UNLIKELY(srcsca != SCALE_GREGORIAN && echs_nul_instant_p(protr))) {
+		/* the proto instant lies outside of what the scale covers */
+		return 0UL;
+	}
 	if (UNLIKELY((unsigned int)rr->count < nti)) {
 		if (UNLIKELY((nti = rr->count) == 0UL)) {
 			goto fin;
